@@ -714,6 +714,64 @@ theorem setBlockType_spec (S : Schema) (st st' : PSt) (f t : Nat) (ty : TypeId) 
           hI hfold
         exact ⟨skip2, X', hr, hI'.toks, hI'.fits⟩
 
+/-- **one visit of the `set_block_type` callback with the position bookkeeping made explicit**
+    (strengthens `setBlockType_keeps_children`: nothing is assumed about the mapped positions).
+    In a state related to the original token list `L0` by `SbtInv` (everything from `skip` on
+    untouched behind the rewritten prefix `X`; true initially with `skip = 0`, `X = []`, and kept by
+    every visit), for a visited node `v` at or after `skip` that occupies its window of `L0`:
+    either the visit changes nothing, or
+    * `mapping.slice(map_from).map(v.pos, 1)` is the block's position `s` in the current document,
+      before and after `clear_incompatible`, and `node_at(s)` is the visited node itself;
+    * the mapped end is `e = s + 2 + size of the new children`, hence `s + 2 ≤ e`;
+    * the block is replaced by the new node around `retypedChildren` and the relation to `L0` holds
+      again with `skip = v.pos + v.node.size`. -/
+theorem setBlockType_visit_spec (S : Schema) (ty : TypeId) (attrs : Attrs) (mf : Nat) (L0 : List Tok)
+    (hty : (S.nodeType ty).isLeaf = false) (st st2 : PSt) (skip skip2 : Nat) (X : List Tok) (v : NV)
+    (hI : SbtInv L0 mf st skip X) (hsk : skip ≤ v.pos)
+    (hw : (L0.drop v.pos).take v.node.size = v.node.toks) (hvn : v.node.norm = true)
+    (hnl : v.node.isLeaf = false)
+    (h : setBlockTypeVisit S ty attrs mf (.ok (st, skip)) v = .ok (st2, skip2)) :
+    (st2 = st ∧ skip2 = skip) ∨
+    ∃ st1 nn,
+      st.clearIncompatible S (st.mapFrom mf v.pos 1) ty = .ok st1 ∧
+      S.createNode ty attrs v.node.marks = .ok nn ∧
+      skip2 = v.pos + v.node.size ∧
+      st.mapFrom mf v.pos 1 = X.length + (v.pos - skip) ∧
+      st.tr.doc.nodeAt (X.length + (v.pos - skip)) = .ok (some v.node) ∧
+      st1.mapFrom mf v.pos 1 = X.length + (v.pos - skip) ∧
+      st1.mapFrom mf (v.pos + v.node.size) 1 =
+        X.length + (v.pos - skip) + 2 + fsize (retypedChildren S ty v.node.kids) ∧
+      st1.mapFrom mf v.pos 1 + 2 ≤ st1.mapFrom mf (v.pos + v.node.size) 1 ∧
+      SbtInv L0 mf st2 skip2 (X ++ (L0.drop skip).take (v.pos - skip) ++ convToks S ty nn v.node.kids) := by
+  unfold setBlockTypeVisit at h
+  simp only at h
+  split at h
+  · simp only [Except.ok.injEq, Prod.mk.injEq] at h
+    exact .inl ⟨h.1.symm, h.2.symm⟩
+  · split at h
+    · simp only [Except.ok.injEq, Prod.mk.injEq] at h
+      exact .inl ⟨h.1.symm, h.2.symm⟩
+    · split at h
+      · simp at h
+      · simp only [Except.ok.injEq, Prod.mk.injEq] at h
+        exact .inl ⟨h.1.symm, h.2.symm⟩
+      · split at h
+        · simp at h
+        · rename_i st1 hclear
+          split at h
+          · simp at h
+          · rename_i nn hnn
+            cases hs : st1.step S (retypeStep (st1.mapFrom mf v.pos 1)
+                (st1.mapFrom mf (v.pos + v.node.size) 1) nn) with
+            | error e => rw [hs] at h; simp [Except.map] at h
+            | ok st2' =>
+              rw [hs] at h
+              simp only [Except.map, Except.ok.injEq, Prod.mk.injEq] at h
+              obtain ⟨rfl, rfl⟩ := h
+              obtain ⟨p1, p2, p3, p4, hI2⟩ := sbtVisit_conv S ty attrs mf L0 hty st st1 st2' skip X v nn
+                hI hsk hw hvn hnl hclear hnn hs
+              exact .inr ⟨st1, nn, hclear, hnn, rfl, p1, p2, p3, p4, by rw [p3, p4]; omega, hI2⟩
+
 /-- reading `SbtRun`: the run only ever appends to the rewritten prefix and moves `skip` forward -/
 theorem SbtRun.grows {S : Schema} {ty : TypeId} {attrs : Attrs} {L0 : List Tok} {vs : List NV}
     {skip skip' : Nat} {X X' : List Tok} (h : SbtRun S ty attrs L0 vs skip X skip' X') :
@@ -772,6 +830,25 @@ theorem SbtRun.single {S : Schema} {ty : TypeId} {attrs : Attrs} {L0 : List Tok}
   | conv _ _ _ _ _ _ nn _ _ _ _ hnn hr =>
     obtain ⟨e1, e2⟩ := inner _ _ _ _ _ hr hin
     exact ⟨nn, hnn, e1, by rw [e2]; simp⟩
+
+/-! #### not stated / what is missing
+
+* **Runs that consult the Fitter** (`st.fits ≠ []`).  `clear_incompatible` inserts the fillers with
+  `Transform.replace(cur, cur, Slice(fill, 0, 0))`, which asks `fits_trivially` against the *old*
+  parent type; when the fillers do not fit there the code hands over to `Fitter` (C11), whose
+  answer the model replays from `PSt.fits`.  The statement would read: "… then the children are
+  `keptChildren ++ (whatever the recorded step inserted at `cur`)`" (nothing at all when
+  `Fitter.fit()` returns `None`).  Not stated: it needs the token semantics of an arbitrary Fitter
+  answer.  The tie counts these runs (`kept_tie_skipped:fitter_called`, `plan_fitter_calls:*`): in
+  the generated cases almost all of them are direct `clear_incompatible` calls on non-textblock
+  parents, a handful per run come from `set_block_type`.
+* `hblocks` of `setBlockType_spec` (a visited textblock is a node with content) follows from
+  `C01.Valid S doc` plus the schema fact "a type with inline content is not a leaf type"; the model
+  keeps `NodeType.isLeaf` and `NodeType.inlineContent` as independent table entries, so it is a
+  hypothesis here.
+* Normal form (`hnorm`) is needed because `node_at` on a document with an empty text node in front
+  of the block returns that text node: the model's `nodeAtKids` and the code agree on this, real
+  documents never contain one. -/
 
 /-! #### a concrete instance of the hypotheses -/
 
